@@ -1,5 +1,10 @@
 (* C03 oracle.  Record (one per scenario):
-     1 model conds tuples atoms maxdepth mgok backend cyc cyc_ttu subjects   (backend: 0 memory, 1 sqlite)
+     1 model conds tuples atoms maxdepth mgok backend cyc cyc_ttu subjects faults cached   (backend: 0 memory, 1 sqlite)
+   faults   = ((ot oi r subject strategy op k fired class v2default v2weight2 v2recursive) ...)
+              one weighted-graph run (strategy 1 weight2 / 2 recursive forced, no fallback) with the iterators of ONE
+              read (op 0 ReadStartingWithUser, 1 ReadUsersetTuples, 2 Read) failing after k tuples
+   cached   = ((ot oi subject ((r class v2default v2weight2 v2recursive) ...)) ...)
+              sequences of requests on one (object, user) through the weighted-graph engine with the query cache on
    cyc      = ((ot r ut ur) ...)   userset edges the real weighted graph marks recursive / tuple cycle
    cyc_ttu  = ((ot r pt c) ...)    TTU edges so marked (parent type, computed relation)
    subjects = ((subject pathx (result ...)) ...)
@@ -59,7 +64,7 @@ let dec_edge v =
 
 let f _id vs =
   match vs with
-  | [I "1"; model; conds; tuples; atoms; maxdepth; mgok; backend; cyc; cyct; subjects] ->
+  | [I "1"; model; conds; tuples; atoms; maxdepth; mgok; backend; cyc; cyct; subjects; faults; cached] ->
     let m = dec_model model in
     let cs = List.map (fun c -> n_of_int (as_int c)) (as_list conds) in
     let store = List.map dec_tuple (as_list tuples) in
@@ -319,6 +324,43 @@ let f _id vs =
             end
           | _ -> failwith "result") (as_list results)
       | _ -> failwith "subject entry") (as_list subjects);
+    (* ---- injected read errors: an error or a correct decision, never a wrong decision ---- *)
+    let spec_memo = Hashtbl.create 8 in
+    let spec_of subj o rel =
+      let (v, conv) = match Hashtbl.find_opt spec_memo subj with
+        | Some x -> x
+        | None -> let x = lfp m cs store subj ats in Hashtbl.add spec_memo subj x; x in
+      if strat && conv then Some (atomval subj v o rel) else None in
+    List.iter (fun fv ->
+      match as_list fv with
+      | [ot; oi; r; s; st; op; k; fired; cls; a; b; c] ->
+        let subj = dec_subject s in
+        let o = mk_obj (as_int ot) (as_int oi) and rel = n_of_int (as_int r) in
+        let cls = as_int cls in
+        if as_int fired = 1 && (cls = 0 || cls = 1) then begin
+          let healthy = List.filter (fun x -> x = 0 || x = 1) [as_int a; as_int b; as_int c] in
+          let right = (match spec_of subj o rel with Some T -> [0] | Some F -> [1] | _ -> [0; 1]) in
+          if not (List.mem cls healthy) && not (List.mem cls right) then
+            props := (Printf.sprintf "%s#r%d@%s strategy=%s: %s failing after %d tuple(s) is turned into the decision %s (healthy weighted-graph decision %s): an error in a consumed stream must surface as an error"
+                        (obj_s o) (as_int r) (subj_s subj) (if as_int st = 1 then "weight2" else "recursive")
+                        (match as_int op with 0 -> "ReadStartingWithUser" | 1 -> "ReadUsersetTuples" | _ -> "Read") (as_int k)
+                        (class_s cls) (String.concat "/" (List.map class_s healthy))) :: !props
+        end
+      | _ -> failwith "fault entry") (as_list faults);
+    (* ---- query cache on: same decision as the uncached weighted-graph run ---- *)
+    List.iter (fun cv ->
+      match as_list cv with
+      | [ot; oi; s; rs] ->
+        let subj = dec_subject s in
+        let o = mk_obj (as_int ot) (as_int oi) in
+        List.iteri (fun i rv ->
+          match List.map as_int (as_list rv) with
+          | [r; cc; a; b; c] ->
+            if (cc = 0 || cc = 1) && a = b && a = c && (a = 0 || a = 1) && cc <> a then
+              props := (Printf.sprintf "%s#r%d@%s: with the check query cache on, request %d of a sequence on this object and user is %s, uncached weighted-graph decision %s"
+                          (obj_s o) r (subj_s subj) (i + 1) (class_s cc) (class_s a)) :: !props
+          | _ -> failwith "cached result") (as_list rs)
+      | _ -> failwith "cached entry") (as_list cached);
     (match !props, !diffs, !knowns with
      | p :: _, _, _ -> "PROP " ^ p ^ (match !diffs with d :: _ -> " || also model-diff: " ^ d | [] -> "")
      | [], d :: _, _ -> "DIFF " ^ d
